@@ -49,6 +49,9 @@ def freshness(prog: Program, f: Func, e: ast.expr, flow: Optional[Flow] = None, 
         tgt = Scope(prog, f, f.cls).resolve_call(e) if depth < 4 else None
         if isinstance(tgt, Cls):
             return "fresh", f"new {tgt.name}"
+        if isinstance(tgt, Func) and any("cache" in d.lower() for d in tgt.decorators):
+            return "alias", f"the result of the memoised `{tgt.name}` (@{[d for d in tgt.decorators if 'cache' in d.lower()][0]}): every " \
+                            "caller with equal arguments receives the same object"
         if isinstance(tgt, Func):
             rets = [r for r in returns_of(tgt.node) if r.value is not None]
             ks = [freshness(prog, tgt, r.value, None, depth + 1) for r in rets]
@@ -116,3 +119,60 @@ def rule_owned_storage(prog: Program, rep: Report, rule: str, c: Cls, storage: I
                 rep.unrec(rule, f, role, f"cannot tell whether `{src(v)[:60]}` is a fresh container ({why})", line=st.lineno)
     if n == 0:
         rep.unrec(rule, prog.resolve(c, "__init__") or own_methods(c)[0], f"owned:{c.name}", "no store into the storage fields found")
+
+
+def rule_no_class_state(prog: Program, rep: Report, rule: str, classes: List[Cls], declare: bool = True, floor: Optional[int] = None):
+    """per-instance state lives on the instance"""
+    if declare:
+        rep.rule(rule, "state lives on the instance, not on the class: no method stores into an attribute of the class (Class.x = / "
+                 "cls.x = / type(self).x = / self.__class__.x =), and no class-level attribute holding a mutable container is updated in "
+                 "place through self or read through self without the constructor having assigned it: two objects in one process "
+                 "would share it", floor=floor if floor is not None else len(classes))
+    for c in classes:
+        class_level = {}
+        for k in c.repo_mro():
+            if k.is_external:
+                continue
+            for st in k.node.body:
+                tgt, val = None, None
+                if isinstance(st, ast.Assign) and len(st.targets) == 1 and isinstance(st.targets[0], ast.Name):
+                    tgt, val = st.targets[0].id, st.value
+                elif isinstance(st, ast.AnnAssign) and isinstance(st.target, ast.Name) and st.value is not None:
+                    tgt, val = st.target.id, st.value
+                if tgt and not (tgt.startswith("__") and tgt.endswith("__")):
+                    class_level.setdefault(tgt, (k, st, val))
+        stores, inplace, loads = field_uses(c)
+        init_assigned = {fld for fld, uses in stores.items() if any(f.name == "__init__" for f, _ in uses)}
+        problems = []
+        for name, (k, st, val) in sorted(class_level.items()):
+            mutable = isinstance(val, (ast.List, ast.Dict, ast.Set, ast.ListComp, ast.DictComp, ast.SetComp)) or \
+                (isinstance(val, ast.Call) and src(val.func) in ("list", "dict", "set", "bytearray", "collections.deque", "deque",
+                                                                 "collections.defaultdict", "defaultdict", "collections.OrderedDict"))
+            if mutable and name in inplace and name not in init_assigned:
+                f0, n0 = inplace[name][0]
+                problems.append((n0.lineno, f"the class attribute `{name} = {src(val)}` of {k.name} is updated in place through self in "
+                                            f"{f0.name} and the constructor never gives the instance its own container"))
+        for f in own_methods(c):
+            for n in ast.walk(f.node):
+                if isinstance(n, ast.Attribute) and isinstance(n.ctx, (ast.Store, ast.Del)):
+                    base = n.value
+                    via = None
+                    if isinstance(base, ast.Name) and (base.id in {k.name for k in c.repo_mro()} or (f.is_classmethod and f.params and base.id == f.params[0])):
+                        via = base.id
+                    elif isinstance(base, ast.Call) and src(base.func) == "type" and len(base.args) == 1 and isinstance(base.args[0], ast.Name) \
+                            and base.args[0].id == f.self_name:
+                        via = src(base)
+                    elif isinstance(base, ast.Attribute) and base.attr == "__class__":
+                        via = src(base)
+                    if via:
+                        problems.append((n.lineno, f"{f.name} stores into the class attribute `{via}.{n.attr}`: the value is shared by every "
+                                                   f"instance (and inherited by subclasses)"))
+        anchor = prog.resolve(c, "__init__") or own_methods(c)[0]
+        rep.fn(anchor)
+        if problems:
+            ln, why = sorted(problems)[0]
+            rep.viol(rule, anchor, f"instance-state:{c.name}", why,
+                     scenario="two objects alive in one process (or a parent and a subclass) read and update one shared container / "
+                              "resource: closing or clearing through one breaks the other", line=ln)
+        else:
+            rep.ok(rule, anchor, f"instance-state:{c.name}", f"{len(class_level)} class-level names, none is shared mutable state")
